@@ -107,8 +107,9 @@ impl SDJWTVerifier {
             .sd_jwt_engine
             .unverified_input_sd_jwt_payload
             .as_ref()
-            .ok_or(Error::ConversionError("reference".to_string()))?["iss"]
-            .as_str()
+            .ok_or(Error::ConversionError("reference".to_string()))?
+            .get("iss")
+            .and_then(Value::as_str)
             .ok_or(Error::ConversionError("str".to_string()))?;
         let issuer_public_key = (self.cb_get_issuer_key)(unverified_issuer, &parsed_header_sd_jwt);
         let algorithm: Algorithm = match sign_alg {
